@@ -226,6 +226,18 @@ def handleAck (st : St) (b : Bytes) : Out :=
       | some ids =>
         ⟨{ st with acks := (notifyAcks st.acks ids).1 }, (notifyAcks st.acks ids).2, true⟩
 
+/-- The buffer `handleResult` goes on with and its (re-read) type id: the body itself, or the
+decompressed content when the body is a gzip packet (`id, err = b.PeekID()` after `gzip(b)`). -/
+def resultContent (gz : List (Bytes × Option Bytes)) (id0 : Nat) (body : Bytes) : Option (Nat × Bytes) :=
+  if id0 = gzipTypeID then
+    match gunzip gz body with
+    | none => none
+    | some d =>
+      match getU32 d with
+      | .error _ => none
+      | .ok (id1, _) => some (id1, d)
+  else some (id0, body)
+
 /-- `handleResult`. -/
 def handleResult (st : St) (b : Bytes) : Out :=
   match consumeID resultTypeID b with
@@ -237,16 +249,7 @@ def handleResult (st : St) (b : Bytes) : Out :=
       match getU32 body with
       | .error _ => ⟨st, [], false⟩
       | .ok (id0, _) =>
-        let content? : Option (Nat × Bytes) :=
-          if id0 = gzipTypeID then
-            match gunzip st.gz body with
-            | none => none
-            | some d =>
-              match getU32 d with
-              | .error _ => none
-              | .ok (id1, _) => some (id1, d)
-          else some (id0, body)
-        match content? with
+        match resultContent st.gz id0 body with
         | none => ⟨st, [], false⟩
         | some (id, d) =>
           if id = rpcErrorTypeID then
